@@ -388,3 +388,76 @@ func C17Dump(v reflect.Value) any {
 		return map[string]any{"unknown": v.Kind().String()}
 	}
 }
+
+// C17Shared reports whether two positions of a decoded value share storage: the same non-nil
+// pointer, the same map, or the same backing array of a non-empty slice reached twice.  A decoder
+// must give every position its own cell (mutating one decoded element must not change another).
+// Pointers to zero-size values are ignored (the runtime may give them one address).
+func C17Shared(v reflect.Value) bool {
+	type cell struct {
+		p uintptr
+		t reflect.Type
+	}
+	seen := map[cell]bool{}
+	var walk func(v reflect.Value) bool
+	mark := func(p uintptr, t reflect.Type) bool {
+		c := cell{p, t}
+		if seen[c] {
+			return true
+		}
+		seen[c] = true
+		return false
+	}
+	walk = func(v reflect.Value) bool {
+		switch v.Kind() {
+		case reflect.Ptr:
+			if v.IsNil() {
+				return false
+			}
+			if v.Type().Elem().Size() > 0 && mark(v.Pointer(), v.Type()) {
+				return true
+			}
+			return walk(v.Elem())
+		case reflect.Interface:
+			if v.IsNil() {
+				return false
+			}
+			return walk(v.Elem())
+		case reflect.Slice:
+			if v.IsNil() || v.Len() == 0 {
+				return false
+			}
+			if v.Type().Elem().Size() > 0 && mark(v.Pointer(), v.Type()) {
+				return true
+			}
+			fallthrough
+		case reflect.Array:
+			for i := 0; i < v.Len(); i++ {
+				if walk(v.Index(i)) {
+					return true
+				}
+			}
+		case reflect.Map:
+			if v.IsNil() {
+				return false
+			}
+			if mark(v.Pointer(), v.Type()) {
+				return true
+			}
+			iter := v.MapRange()
+			for iter.Next() {
+				if walk(iter.Value()) {
+					return true
+				}
+			}
+		case reflect.Struct:
+			for i := 0; i < v.NumField(); i++ {
+				if walk(v.Field(i)) {
+					return true
+				}
+			}
+		}
+		return false
+	}
+	return walk(v)
+}
